@@ -1335,6 +1335,8 @@ package compose
 //@   at call cm.updateDependencies: ghost depsFolded++
 //@   at call r.checkPointer.convertCheckPoint: assert[skip_pre_handler_flags_saved] @C05,C11 arg0 != nil && arg0.SkipPreHandler == skipPreHandler
 //@   at call r.checkPointer.convertCheckPoint: assert[ready_tasks_saved] @C05 forall(i int :: 0 <= i && i < len(readyTasks) ==> in(readyTasks[i].nodeKey, arg0.Inputs))
+//@   at call r.checkPointer.convertCheckPoint: assert[ready_interrupt_before_nodes_are_reported] @C06 forall(i int :: 0 <= i && i < len(readyTasks) && inList(readyTasks[i].nodeKey, r.interruptBeforeNodes) ==> inList(readyTasks[i].nodeKey, intInfo.BeforeNodes))
+//@   note ready_interrupt_before_nodes_are_reported: the tasks saved as ready run as soon as the run is resumed; an interrupt-before node among them must appear in the interrupt that is returned now, or it would run without ever having been reported
 //@   at call r.checkPointer.convertCheckPoint: assert[only_this_graph_s_own_state_is_checkpointed] @C11 r.runCtx == nil ==> arg0.State == nil
 //@   at call r.checkPointer.convertCheckPoint: assert[state_in_use_is_the_state_checkpointed] @C11 r.runCtx != nil && is(ctxValue(ctx, "stateKey"), "*internalState") ==> arg0.State == unbox(ctxValue(ctx, "stateKey"), "*internalState").state
 //@   at call r.checkPointer.convertCheckPoint: assert[finished_siblings_folded_into_the_channels_before_saving] @C05 valsFolded == 1 && depsFolded == 1
